@@ -3003,7 +3003,8 @@ func isValidTimestamp(ts *timestamppb.Timestamp) bool {
 	if ts == nil {
 		return false
 	}
-	return ts.GetSeconds() > 0 || ts.GetNanos() > 0
+	// strictly after the Unix epoch (nanos alone used to let -0.5 s through while -5 s was dropped)
+	return ts.GetSeconds() > 0 || (ts.GetSeconds() == 0 && ts.GetNanos() > 0)
 }
 
 // convertTreasureStatusToPbStatus converts the treasure status from the hydra to the protobuf status
